@@ -424,7 +424,17 @@ type labServer struct {
 var (
 	dataDirOnce sync.Once
 	labDataDir  string
+	// labDataOverride, when set, is the data directory handed to the server (C18: it must
+	// persist across processes)
+	labDataOverride string
 )
+
+func dataDirFor(scratch string) string {
+	if labDataOverride != "" {
+		return labDataOverride
+	}
+	return filepath.Join(scratch, "data")
+}
 
 // scratchDir returns a per-process scratch directory (removed by cleanupScratch).
 func scratchDir() string {
@@ -465,7 +475,7 @@ func startServer(toml string) (*labServer, error) {
 	if err != nil {
 		return nil, err
 	}
-	ddOpt, err := server.WithDataDir(filepath.Join(dir, "data"))
+	ddOpt, err := server.WithDataDir(dataDirFor(dir))
 	if err != nil {
 		return nil, err
 	}
@@ -511,7 +521,7 @@ func startServerAny(toml string) (*labServer, error) {
 	if err != nil {
 		return nil, err
 	}
-	ddOpt, err := server.WithDataDir(filepath.Join(dir, "data"))
+	ddOpt, err := server.WithDataDir(dataDirFor(dir))
 	if err != nil {
 		return nil, err
 	}
